@@ -176,18 +176,23 @@ func (server *SugarDB) handleCommand(ctx context.Context, message []byte, conn *
 		}
 	}
 
-	// If the command is a write command, wait for state copy to finish.
+	// If the command is a write command, wait for a state copy or an AOF rewrite to finish.
+	// The mutation is announced first and the flags are checked afterwards (the copier does the
+	// opposite), so a writer and a state copy can never both go ahead. Writers are also held back
+	// for the whole AOF rewrite: a command logged between the state copy and the truncation of
+	// the log would be lost by the truncation.
 	if internal.IsWriteCommand(command, subCommand) {
 		for {
-			if !server.stateCopyInProgress.Load() {
-				server.stateMutationInProgress.Store(true)
+			server.stateMutations.Add(1)
+			if !server.stateCopyInProgress.Load() && !server.rewriteAOFInProgress.Load() {
 				break
 			}
+			server.stateMutations.Add(-1)
 			verifhook.Spin("mutation.wait")
 		}
-		// Clear the flag on every exit path: a write command that fails (or is handed to the
-		// cluster) must not leave it set, otherwise the next state copy waits forever.
-		defer server.stateMutationInProgress.Store(false)
+		// Withdraw the announcement on every exit path: a write command that fails (or is handed to
+		// the cluster) must not leave it behind, otherwise the next state copy waits forever.
+		defer server.stateMutations.Add(-1)
 	}
 
 	if !server.isInCluster() || !synchronize {
